@@ -295,6 +295,85 @@ def disturb(root, listing, mode):
     return go(root, listing)
 
 
+def disturb2(root, listing, mode):
+    """a second change of the folder, between the snapshot of the first tree and the second scan: every file grows /
+    is touched / is renamed / is replaced by a new file of the same name / gets a hard link.  Returns the abstract
+    value of the folder afterwards."""
+    if mode == "none":
+        return listing
+
+    def stamp(p, mt):
+        ns = mt[0] * 1_000_000_000 + mt[1] * 125_000_000
+        os.utime(p, ns=(ns, ns))
+
+    def go(dirpath, lst):
+        names = {e[1] for e in lst}
+        out = []
+        for ent in lst:
+            p = os.path.join(dirpath, ent[1])
+            if ent[0] == "d":
+                out.append(["d", ent[1], go(p, ent[2])])
+            elif ent[0] != "f":
+                out.append(ent)
+            elif mode == "grow":
+                with open(p, "ab") as fp:
+                    fp.write(b"+" * 20)
+                mt = [ent[3][0] + 777, ent[3][1]]
+                stamp(p, mt)
+                out.append(["f", ent[1], ent[2] + 20, mt])
+            elif mode == "touch":
+                mt = [ent[3][0] + 777, (ent[3][1] + 1) % 8]
+                stamp(p, mt)
+                out.append(["f", ent[1], ent[2], mt])
+            elif mode == "replace":                      # another file under the same name
+                os.unlink(p)
+                with open(p, "wb") as fp:
+                    fp.write(b"r" * (ent[2] + 1))
+                mt = [ent[3][0] + 5, ent[3][1]]
+                stamp(p, mt)
+                out.append(["f", ent[1], ent[2] + 1, mt])
+            elif mode in ("rename", "hardlink"):
+                nn = ent[1] + (".r" if mode == "rename" else ".lnk")
+                if nn in names or len(os.fsencode(nn)) > 250:
+                    out.append(ent)
+                    continue
+                names.add(nn)
+                if mode == "rename":
+                    os.rename(p, os.path.join(dirpath, nn))
+                    out.append(["f", nn, ent[2], ent[3]])
+                else:
+                    os.link(p, os.path.join(dirpath, nn))
+                    out.append(ent)
+                    out.append(["f", nn, ent[2], ent[3]])
+            else:
+                raise ValueError(mode)
+        return out
+
+    return go(root, listing)
+
+
+def flat_obs(o, pre=""):
+    """(path, is_dir, size, mtime) of an observed forest, for messages"""
+    out = []
+    for e, ch in o:
+        out.append((pre + e[0], e[1], e[2], e[3][0] if e[3] else None))
+        out.extend(flat_obs(ch, pre + e[0] + "/"))
+    return out
+
+
+def entry_ids(tree):
+    return [id(n.data) for n in tree]
+
+
+def save_to(tree, target, how, kw):
+    if how == "stream":
+        with open(target, "w", encoding="utf8") as fp:
+            tree.save(fp, **kw)
+    else:
+        tree.save(target, **kw)
+    return read_saved(target, how)
+
+
 def expected_walk(dirpath, listing):
     """(name, is_dir, size, mtime ratio, sub) of the regular entries in os.scandir order, cross-checked against what
     the harness created."""
@@ -338,7 +417,10 @@ class Prop:
             "read the folder is changed (files rewritten / touched / new files / everything removed): the tree, the saved file and "
             "the re-loaded tree must be the folder AS SCANNED, a second scan the folder as it is then; save() is called with every "
             "explicit option value (key_map, value_map in {omitted, True, False, custom}, meta) twice with the same caller-owned "
-            "objects (snapshotted), load() twice with one file_meta dict, the tree is read again afterwards; separate cases for the FileSystemEntry "
+            "objects (snapshotted), load() twice with one file_meta dict, the tree is read again afterwards; then the disk changes "
+            "once more (every file grows / is touched / renamed / replaced by another file of the same name / hard-linked) and the "
+            "folder is scanned a second time with the first tree still alive: the second tree must be the folder as it is then, the "
+            "first tree and the file it saves must be identical to their snapshots, no entry object is shared; separate cases for the FileSystemEntry "
             "constructor and the two mappers on arbitrary arguments.  distinct = distinct (sort, directory value); "
             "non-trivial = some folder holds >= 2 entries (or a mapper case)")
     exhaustive_note = "all forest shapes <= N entries (N=4 quick) x every file/folder labelling of the leaves x sort on/off"
@@ -440,7 +522,8 @@ class Prop:
         if rng.random() < 0.2:
             so["meta"] = True
         return dict(after=rng.choice(["none", "none", "none", "rewrite", "rewrite", "touch", "mixed", "remove"]),
-                    save_opts=so, rescan=rng.random() < 0.25)
+                    save_opts=so, rescan=rng.random() < 0.25,
+                    after2=rng.choice(["none", "none", "none", "grow", "touch", "rename", "replace", "hardlink"]))
 
     def descs(self, tier, rng):
         yield from CORPUS
@@ -556,6 +639,8 @@ class Prop:
                 yield dict(desc, save_opts={kk: vv for kk, vv in so.items() if kk != k})
         if desc.get("after", "none") != "none":
             yield dict(desc, after="none")
+        if desc.get("after2", "none") not in ("none", "grow"):
+            yield dict(desc, after2="grow")
 
     # ----- one case ----------------------------------------------------
     def run(self, desc) -> Case:
@@ -768,13 +853,33 @@ class Prop:
             nm = str(tree.name)
             if not fail and nm != str(Path(arg)):
                 fail = f"tree-name: {nm!r} is not the scanned path"
-            # a second scan sees the folder as it is NOW
-            if not fail and tree_after is not None and (after != "none" or desc.get("rescan")):
+            # scan_1 is done, tree_1 has been read and saved (snapshot: o_tree, raw).  The disk changes once more, the folder
+            # is scanned again: the second tree shows the folder as it is NOW, the first tree and what it saves stay
+            # what they were, and the two trees do not share entry objects
+            after2 = desc.get("after2", "none")
+            if not fail and tree_after is not None and (after != "none" or after2 != "none" or desc.get("rescan")):
                 try:
+                    tree_now = disturb2(root, tree_after, after2)
                     tree3 = load_tree_from_fs(root, sort=sort)
-                    fail = self.check_tree(tree3, expected_walk(root, tree_after), sort)
+                    fail = self.check_tree(tree3, expected_walk(root, tree_now), sort)
                     if fail:
                         fail = "rescan: " + fail
+                    if not fail:
+                        o_again = obs_tree(tree)
+                        if o_again != o_tree:
+                            fail = (f"first-tree-changed: scanning the folder again changed the tree of the first scan: it was "
+                                    f"{flat_obs(o_tree)!r}, it is {flat_obs(o_again)!r}")
+                    if not fail and err is None:
+                        raw3 = save_to(tree, os.path.join(base, "saved3.json"), how, kw)
+                        if raw3 != raw:
+                            fail = "first-tree-changed: after the second scan the first tree saves a different file"
+                    ids1, ids3 = entry_ids(tree), entry_ids(tree3)
+                    if not fail and (len(set(ids3)) != len(ids3) or set(ids1) & set(ids3)):
+                        fail = "rescan-shares-entries: nodes of two scans (or two nodes of one scan) carry the same entry object"
+                    if not fail:       # ... and once more with the second tree gone
+                        del tree3
+                        if obs_tree(tree) != o_tree:
+                            fail = "first-tree-changed: the first tree changed when the second tree was dropped"
                 except Exception as e:  # noqa: BLE001
                     fail = f"rescan-raises: {type(e).__name__}: {e}"
         finally:
@@ -782,8 +887,8 @@ class Prop:
         fsz = [len(f) for f in folders(desc["tree"])]
         mixed = any(len({e[0] for e in f if e[0] != "o"}) == 2 for f in folders(desc["tree"]))
         return Case(desc=desc, coq_input=coq, impl_obs=obs, oracle_fail=fail,
-                    nontrivial=max(fsz) >= 2, key=H.digest([sort, desc["tree"], after, sopts]),
-                    stats=dict(kind="load", sort=sort, entries=min(count(desc["tree"]), 41) // 5 * 5, depth=depth(desc["tree"]),
+                    nontrivial=max(fsz) >= 2, key=H.digest([sort, desc["tree"], after, sopts, desc.get("after2", "none")]),
+                    stats=dict(kind="load", sort=sort, after2=desc.get("after2", "none"), entries=min(count(desc["tree"]), 41) // 5 * 5, depth=depth(desc["tree"]),
                                max_folder=min(max(fsz), 8), special=count(desc["tree"], "o") > 0,
                                mixed_folder=mixed, how=how, after=after,
                                key_map=str(sopts.get("key_map", "default")), value_map=str(sopts.get("value_map", "default"))))
@@ -963,6 +1068,13 @@ CORPUS = [
     dict(kind="load", sort=False, how="stream", after="touch", tree=[["f", "a.txt", 5, [1_000_000_000, 0]], ["f", "b", 2, [7, 0]]]),
     dict(kind="load", sort=True, how="zip", after="remove", tree=[["f", "a.txt", 5, [1_000_000_000, 0]], ["d", "d", [["f", "b", 0, [1, 4]]]]]),
     dict(kind="load", sort=True, how="path", after="mixed", rescan=True, tree=[["d", "d", [["f", "b", 1, [1, 0]]]], ["f", "c", 0, [0, 0]]]),
+    # two scans of one folder with a change in between: the first tree and what it saves stay what they were
+    dict(kind="load", sort=True, how="path", after2="grow", tree=[["d", "logs", [["f", "app.log", 8, [1_600_000_100, 4]], ["f", "old.log", 10, [1_600_000_200, 6]]]], ["f", "x", 1, [1, 0]]]),
+    dict(kind="load", sort=False, how="stream", after2="rename", tree=[["d", "logs", [["f", "app.log", 8, [1_600_000_100, 4]]]], ["f", "x", 1, [1, 0]]]),
+    dict(kind="load", sort=True, how="zip", after2="touch", tree=[["f", "a", 0, [0, 0]]]),
+    dict(kind="load", sort=True, how="path", after2="replace", tree=[["f", "a", 3, [9, 0]], ["d", "d", [["f", "a", 3, [9, 0]]]]]),
+    dict(kind="load", sort=True, how="explicit", after2="hardlink", tree=[["f", "a", 3, [9, 0]], ["d", "d", [["f", "b", 0, [1, 1]]]]]),
+    dict(kind="load", sort=True, how="path", after="rewrite", after2="grow", save_opts=dict(key_map="custom"), tree=[["f", "a", 3, [9, 0]]]),
     # every explicit value of the save options
     dict(kind="load", sort=True, how="path", save_opts=dict(key_map=True), tree=[["f", "a", 1, [1, 0]], ["d", "d", []]]),
     dict(kind="load", sort=True, how="path", save_opts=dict(key_map=True, value_map=True, meta=True), tree=[["f", "a", 1, [1, 0]]]),
